@@ -14,6 +14,26 @@ for d in sorted(os.listdir(S)):
     dw = (re.search(r"with patch, demo:(.*)", ver) or ["", " "])[1]
     demo_with = ("FAILED" in dw) or ("test result: ok" not in dw and dw.strip() != "")
     demo_without = "ok." in (re.search(r"without patch, demo:(.*)", ver) or [""," "])[1]
+    def verdicts(chk):
+      results = {}
+      blocks = re.split(r"^== ", chk, flags=re.M)[1:]
+      for b in blocks:
+        cid = b.split(":", 1)[0]
+        body = b.split(":", 1)[1] if ":" in b else ""
+        vio = [l for l in body.splitlines() if "VIOLATION" in l]
+        if any("no-failing-input-found" not in l for l in vio):
+            results[cid] = "VIOLATION with failing input"
+        elif vio:
+            results[cid] = "VIOLATION (model correspondence or proof broken, no failing input found)"
+        elif "OK property" in body:
+            results[cid] = "OK (not detected by this check)"
+        elif "KNOWN-FINDING" in body:
+            results[cid] = "only the known findings of the unchanged tree (not detected)"
+        else:
+            results[cid] = "no verdict"
+      return results
+    chk2 = open(os.path.join(p, "checks2.txt")).read() if os.path.exists(os.path.join(p, "checks2.txt")) else ""
+    results2 = verdicts(chk2)
     results = {}
     blocks = re.split(r"^== ", chk, flags=re.M)[1:]
     for b in blocks:
@@ -33,7 +53,7 @@ for d in sorted(os.listdir(S)):
     files = re.findall(r"^\+\+\+ b/(\S+)", open(os.path.join(p, "patch.diff")).read(), re.M)
     if d.startswith("benign"):
         continue
-    prop = "C" + d[1:] if d[0] in "DE" else d
+    prop = "C" + d[1:]
     meta = {
         "property_broken": prop,
         "changed_files": files,
@@ -47,8 +67,10 @@ for d in sorted(os.listdir(S)):
         "checks_run_against_it": {"how": "lib/mutant.sh seeded/%s/patch.diff <checks> (git apply in /repo, ./check <id> quick, git checkout)" % d,
                                   "results": results},
     }
+    if results2:
+        meta["checks_run_against_it"]["results_after_strengthening_the_checks"] = results2
     json.dump(meta, open(os.path.join(p, "meta.json"), "w"), indent=1)
-    rows.append((d, files, results, demo_with and demo_without and tests and tests.group(2) == "0"))
+    rows.append((d, files, results, demo_with and demo_without and tests and tests.group(2) == "0", results2))
 benign = []
 for d in sorted(os.listdir(S)):
     p = os.path.join(S, d)
@@ -57,8 +79,8 @@ for d in sorted(os.listdir(S)):
         benign.append((d, chk.count("OK property"), chk.count("VIOLATION")))
 with open(os.path.join(S, "README.md"), "w") as fh:
     fh.write("# Seeded changes\n\nEach directory holds `patch.diff` (the change), `demo_test.rs` (the independent demonstration), `agent_meta.txt` (the author's description), `verify.txt` (confirmation run), `checks.txt` (our checks run against it) and `meta.json`. None of these changes is ever committed to /repo.\n\n| change | files | confirmed | checks and verdicts |\n|---|---|---|---|\n")
-    for d, files, results, ok in rows:
-        fh.write("| %s | %s | %s | %s |\n" % (d, ", ".join(os.path.basename(f) for f in files), "yes" if ok else "NO", "; ".join("%s: %s" % kv for kv in results.items())))
+    for d, files, results, ok, results2 in rows:
+        fh.write("| %s | %s | %s | %s |\n" % (d, ", ".join(os.path.basename(f) for f in files), "yes" if ok else "NO", "; ".join("%s: %s" % kv for kv in results.items()) + ((" — after strengthening: " + "; ".join("%s: %s" % kv for kv in results2.items())) if results2 else "")))
 with open(os.path.join(S, "README.md"), "a") as fh:
     fh.write("\n## Behaviour-preserving rewrites (no alarm expected)\n\nEight refactorings written by an independent sub-agent (descriptions in `benign_README.txt`), each run against 13 checks:\n\n| rewrite | checks OK | violations |\n|---|---|---|\n")
     for d, ok, vio in benign:
